@@ -90,6 +90,15 @@ class CholLinearOperator(RootLinearOperator):
             return super()._solve(rhs, preconditioner, num_tridiag=num_tridiag)
         return self.root._cholesky_solve(rhs, upper=self.upper)
 
+    def _matmul(
+        self: Float[LinearOperator, "*batch M N"],
+        rhs: Union[Float[torch.Tensor, "*batch2 N C"], Float[torch.Tensor, "*batch2 N"]],
+    ) -> Union[Float[torch.Tensor, "... M C"], Float[torch.Tensor, "... M"]]:
+        if self.upper:
+            # the operator represents R^T R (see the class docstring and to_dense), not R R^T
+            return self.root._t_matmul(self.root._matmul(rhs))
+        return super()._matmul(rhs)
+
     @cached
     def to_dense(self: Float[LinearOperator, "*batch M N"]) -> Float[Tensor, "*batch M N"]:
         root = self.root
